@@ -97,10 +97,18 @@ Fixpoint strip_prefix (pat s : str) : option str :=
   end.
 
 (* group 4, alternatives in the order of the regex: [a-h][1-8] | O-O-O | O-O *)
+Definition san_sq_alt (s : str) : option (san_target * str) :=
+  match s with
+  | a :: r1 => if is_file_ch a then
+                 match r1 with
+                 | b :: r => if is_rank_ch b then Some (TSq a b, r) else None
+                 | [] => None
+                 end
+               else None
+  | [] => None
+  end.
 Definition san_g4 (s : str) : option (san_target * str) :=
-  match (match s with
-         | a :: b :: r => if is_file_ch a && is_rank_ch b then Some (TSq a b, r) else None
-         | _ => None end) with
+  match san_sq_alt s with
   | Some x => Some x
   | None => match strip_prefix [79;45;79;45;79] s with
             | Some r => Some (TOOO, r)
